@@ -98,9 +98,17 @@ def first_fault(S, start, is_write, unaligned=False):
 
 
 def load_words(S, regs, start):
-    """data[i] = MemA[start + 4*BitCount(regs<i-1:0>), 4] (value when no fault)"""
+    """data[i] = MemA[start + 4*BitCount(regs<i-1:0>), 4] (value when no fault), stated through the 16 word
+    slots start + 4*j so that every memory read has a constant offset from start"""
     below, total = counts(regs)
-    return [S.mem_a_get(start + 4 * below[i], 4) for i in range(16)]
+    slot = [S.mem_a_get(start + 4 * j, 4) for j in range(16)]
+    data = []
+    for i in range(16):
+        v = slot[15]
+        for j in range(14, -1, -1):
+            v = z3.If(below[i] == j, slot[j], v)
+        data.append(z3.simplify(v))
+    return data
 
 
 def store_words(S, regs, start, values, ok):
